@@ -13,6 +13,10 @@ claimed = {
    text="Deductive proof, for all 64-bit cell ids and all union lengths, of the membership core of the cell-union algebra on sorted, pairwise-disjoint unions: areSiblings is exact (sound and complete against level/immediate-parent), lowerBound is the partition point, ContainsCellID / IntersectsCellID are sound and complete against 'some member contains / intersects the id' (binary-search post-condition plus the range lemmas of C01), Contains/Intersects of unions against the per-cell tests, IsValid, LeafCellsCovered does not overflow, CellUnionFromRange yields valid cells starting at begin and ending at end, contiguous (thorough tier), no index panics, termination. Normalize's covering-equivalence, intersection/difference set equality, CellIndex and s2intersect are NOT decided (named in evidence).",
    note=TRUST+"Unverified remainder: Normalize (covering equivalence and uniqueness), CellUnionFromIntersection/Difference/Union functional equality, Denormalize leaf-set preservation, CellIndex, s2intersect (maps/closures).",
    design="3 C11"),
+ 'C12': dict(
+   text="Deductive proof of the id slice: CellFromCellID stores the id and, for valid ids, the level, face and Hilbert orientation of that id (orientation as an uninterpreted-but-deterministic function of the id, tied to the table computation by C01); CellFromPoint yields the leaf cell of cellIDFromPoint; Cell.Children()[k] carries exactly id.Children()[k] with level+1, same face and orientation parent^posToOrientation[k] (loop unrolled completely); thorough tier: that this orientation is the one the Hilbert tables assign to the child id (two unrolled table walks). ContainsPoint, uv bounds of children, RectBound/CapBound and every distance function are floating point and NOT decided.",
+   note=TRUST+"Unverified remainder: all Cell geometry in floating point (uv bounds, containment, bounds, distances); PaddedCell.",
+   design="3 C12"),
  'C13': dict(
    text="Deductive proof of the state-machine slice: the ShapeIndex bookkeeping invariant SI (ids below nextID present, none above, pendingAdditionsPos <= nextID, fresh => nothing pending, lock free) is established by NewShapeIndex and preserved by Add, Reset, Build, Iterator, Begin, End, maybeApplyUpdates and applyUpdatesInternal from every SI-state, so it holds after every finite sequence of these operations (induction over histories, no bound); the update path never re-enters the index lock (mutex word modelled in memory, Lock requires it free); Loop.Invert re-establishes 'index holds exactly this loop, pending from 0'; every polygon constructor path through initEdgesAndIndex yields a non-nil index; EdgeQuery.FindEdges/Distance/IsDistanceLess/IsDistanceGreater/IsConservative* leave the options pointer and the pointed-to options bit-identical (frame). Equality of float answers across histories beyond these invariants, Remove, and the bodies of the clipping recursion are not decided.",
    note=TRUST+"Assumed contracts: removeShapeInternal, addShapeInternal, updateFaceEdges (bodies outside the subset), findEdgesInternal, sortAndUniqueResults, NewShapeIndexIterator, LocateCellID, PaddedCell.ShrinkToFit, Loop.initBound; unreachability of tracker.lowerBound rests on updateFaceEdges passing disjointFromIndex=isFirstUpdate() (body not verified).",
@@ -34,7 +38,7 @@ claimed = {
    note=TRUST+"Unverified remainder: ShapeIndex contents vs brute force (edge clipping, containsCenter: floating point); Polygon shape methods.",
    design="3 C06"),
  'C01': dict(
-   text="Deductive proof, for all 2^64 words, of the integer cell-id algebra: validity, level, parent/child/range relations, children partition the parent's leaf range in curve order, Contains/Intersects equal range nesting, laminarity, Next/Prev/NextWrap/PrevWrap/Advance, CommonAncestorLevel, MaxTile (loops by invariant, termination by decreases), face/pos/level construction. Point->cell geometric containment and neighbour touching are floating point and are NOT decided (named in evidence assumptions).",
+   text="Deductive proof, for all 2^64 words, of the integer cell-id algebra: validity, level, parent/child/range relations, children partition the parent's leaf range in curve order, Contains/Intersects equal range nesting, laminarity, Next/Prev/NextWrap/PrevWrap/Advance, CommonAncestorLevel, MaxTile (loops by invariant, termination by decreases), face/pos/level construction. Also (face,i,j)<->id through the Hilbert lookup tables (contents read from the running program on every run, encoded as mux trees, both 8-step loops unrolled completely): cellIDFromFaceIJ yields a valid leaf on face f, faceIJOrientation returns in-range coordinates, and the two are mutually inverse on all f<6, i,j<2^30 and on all valid leaves; cellIDFromPoint yields a valid leaf for every float triple incl. NaN/Inf; Edge/Vertex neighbours are valid cells of the requested level. Point->cell geometric containment and neighbour touching are floating point and are NOT decided (named in evidence assumptions).",
    note=TRUST+"Unverified remainder: point-to-cell geometric containment, neighbours touch (float projection).",
    design="3 C01"),
 }
